@@ -19,8 +19,11 @@ Schemas == <<
   << Col(<<97>>, 1, 1, 0), Col(<<98>>, 6, 1, 0) >>,
   \* 3: names that do not fit the metadata arena's first block
   << Col(Long(110, 40000), 1, 1, 0), Col(Long(111, 30000), 6, 0, 0) >>,
-  \* 4: INT96 and a REQUIRED boolean next to a nullable double
-  << Col(<<116>>, 3, 1, 0), Col(<<113>>, 0, 0, 0), Col(<<100>>, 5, 1, 0) >> >>
+  \* 4: wide fixed-length values and a REQUIRED boolean next to a nullable double
+  \*    (INT96 is not accepted by carquet_writer_write_batch, so it cannot be part of a fault-free run)
+  << Col(<<116>>, 7, 1, 12), Col(<<113>>, 0, 0, 0), Col(<<100>>, 5, 1, 0) >>,
+  \* 5: wide: the footer metadata (schema elements, column chunks) does not fit one arena block
+  [i \in 1..160 |-> Col(<<99, 48 + (i \div 100), 48 + ((i \div 10) % 10), 48 + (i % 10)>>, IF i % 2 = 0 THEN 1 ELSE 2, i % 2, 0)] >>
 
 \* kind "write": the window covers create .. close; the file is read back afterwards
 W(sid, groups, codec, page, wmode, policy) ==
@@ -28,7 +31,10 @@ W(sid, groups, codec, page, wmode, policy) ==
 \* kind "read": fixture written without faults; window = open + column reads
 R(sid, groups, codec, page, rmode, verify, policy) ==
     [kind |-> "read", sid |-> sid, groups |-> groups, codec |-> codec, page |-> page, wmode |-> "p", policy |-> policy,
-     rmode |-> rmode, verify |-> verify]
+     rmode |-> rmode, verify |-> verify, rcols |-> 1000]
+\* as R, but only the first rcols columns of each row group are read
+RN(sid, groups, codec, page, rmode, verify, policy, rcols) ==
+    [R(sid, groups, codec, page, rmode, verify, policy) EXCEPT !.rcols = rcols]
 \* kind "batch": window = open + batch reader
 B(sid, groups, codec, page, rmode, bs, threads, proj, policy) ==
     [kind |-> "batch", sid |-> sid, groups |-> groups, codec |-> codec, page |-> page, wmode |-> "p", policy |-> policy,
@@ -37,6 +43,7 @@ B(sid, groups, codec, page, rmode, bs, threads, proj, policy) ==
 SC(adds, policy) == [kind |-> "schema", adds |-> adds, policy |-> policy]
 AddC(n, t, r, l) == [op |-> "AddColumn", name |-> n, type |-> t, rep |-> r, tlen |-> l]
 AddG(n, r) == [op |-> "AddGroup", name |-> n, rep |-> r]
+Min2(a, b) == IF a < b THEN a ELSE b
 Digits(i) == <<99, 48 + (i \div 10), 48 + (i % 10)>>
 
 Catalogue == [
@@ -57,7 +64,7 @@ Catalogue == [
   w_close  |-> W(2, <<4, 2>>, 0, 64, "p", "c"),
   w_cont   |-> W(2, <<4, 2>>, 1, 64, "p", "n"),
   w_long   |-> W(3, <<3>>, 0, 1048576, "p", "a"),
-  w_int96  |-> W(4, <<9>>, 1, 1048576, "p", "a"),
+  w_wide  |-> W(4, <<9>>, 1, 1048576, "p", "a"),
   r_mmap   |-> R(1, <<5, 3>>, 1, 64, "m", 0, "a"),
   r_buffer |-> R(1, <<5, 3>>, 2, 64, "b", 1, "a"),
   r_zstd   |-> R(1, <<5, 3>>, 6, 1048576, "f", 1, "a"),
@@ -67,7 +74,16 @@ Catalogue == [
   b_fread  |-> B(1, <<5, 3>>, 0, 64, "f", 3, 1, <<>>, "a"),
   b_buffer |-> B(1, <<5, 3>>, 6, 64, "b", 100, 1, <<5, 0, 7>>, "a"),
   b_cont   |-> B(2, <<4, 2>>, 1, 64, "f", 3, 1, <<>>, "n"),
-  b_par    |-> B(1, <<5, 3>>, 1, 64, "f", 3, 4, <<>>, "a") ]
+  b_par    |-> B(1, <<5, 3>>, 1, 64, "f", 3, 4, <<>>, "a"),
+  w_wide160 |-> W(5, <<2, 1>>, 0, 1048576, "p", "a"),
+  r_wide160 |-> RN(5, <<2, 1>>, 0, 1048576, "f", 1, "a", 2),
+  b_wide160 |-> B(5, <<2, 1>>, 1, 1048576, "m", 100, 1, <<0, 159>>, "a"),
+  w_snappy_c |-> W(1, <<5, 3>>, 1, 64, "p", "c"),
+  w_plain_n |-> W(1, <<5, 3>>, 0, 64, "f", "n"),
+  r_fread_n |-> R(1, <<5, 3>>, 0, 64, "f", 1, "n"),
+  r_mmap_n |-> R(1, <<5, 3>>, 6, 64, "m", 1, "n"),
+  b_mmap_n |-> B(1, <<5, 3>>, 1, 64, "m", 3, 1, <<>>, "n"),
+  b_buffer_n |-> B(1, <<5, 3>>, 0, 64, "b", 2, 1, <<1, 5>>, "n") ]
 
 S == Catalogue[scn]
 Sch == Schemas[S.sid]
@@ -101,7 +117,7 @@ NBatches == FoldLeft(LAMBDA a, n : a + CeilDiv(n, S.bs), 0, S.groups)
 Prog ==
     CASE S.kind = "read" ->
            <<[op |-> "ROpen", mode |-> S.rmode, verify |-> S.verify]>>
-           \o FlattenSeq([g \in 1..Len(S.groups) |-> FlattenSeq([c \in 1..Len(Sch) |-> ChunkProg(g, c)])])
+           \o FlattenSeq([g \in 1..Len(S.groups) |-> FlattenSeq([c \in 1..Min2(Len(Sch), S.rcols) |-> ChunkProg(g, c)])])
            \o <<[op |-> "CloseReader"]>>
       [] S.kind = "batch" ->
            << [op |-> "ROpen", mode |-> S.rmode, verify |-> S.verify],
